@@ -68,14 +68,11 @@ def reference(specs, edges, dt):
             addg[post] += g * s_new * kappa
             addc[post] += g * s_new * esyn * kappa
         else:
-            # the step linearises every synaptic current with a secant in which BOTH the pre and
-            # the post voltage are shifted by 1e-3 mV, and treats the slope as a conductance on the
-            # post compartment (base.py/network.py:_synapse_currents); mirrored here
-            f = lambda vp: -params["gS"] * math.tanh((vp - params["x_offset"]) * params["slope"])
-            cur = f(vall[pre])
-            slope = (f(vall[pre] + 1e-3) - cur) / 1e-3 * kappa
-            addg[post] += slope
-            addc[post] += -cur * kappa + slope * vall[post]
+            # a current that depends on the PRE voltage only enters the post compartment's equation as a
+            # constant (evaluated at the present pre voltage); it puts no coefficient on the post voltage.
+            # (Until F46 this reference mirrored the code's secant, which perturbed the pre voltage too.)
+            cur = -params["gS"] * math.tanh((vall[pre] - params["x_offset"]) * params["slope"])
+            addc[post] += -cur * kappa
     out = []
     for ci, sp in enumerate(specs):
         g2, e2 = [], []
@@ -87,6 +84,107 @@ def reference(specs, edges, dt):
         s2 = cablelib.CellSpec(sp.parents, sp.counts, sp.r, sp.l, sp.ra, sp.cm, g2, e2, sp.v, sp.i)
         out += [float(x) for x in s2.step(dt, "bwd_euler")]
     return out
+
+
+def secant_correspondence(ctx, viol, distinct):
+    """Network._synapse_currents itself (its accumulated voltage / constant terms per compartment) against
+    Model/Secant.v evaluated over Q: random small networks, IonotropicSynapse, TestSynapse and a synapse that
+    reads only the pre voltage (rational stand-in for TanhRateSynapse), random dyadic states and voltages."""
+    from fractions import Fraction as Fr
+    import numpy as np
+    import jax.numpy as jnp
+    import jaxley as jx
+    import coqeval
+    from cablelib import q
+    from jaxley.connect import connect
+    from jaxley.synapses import IonotropicSynapse, TestSynapse
+    from jaxley.synapses.synapse import Synapse
+    from simlib import quiet
+    rng = ctx.rng
+
+    class PreReader(Synapse):
+        def __init__(self, name=None):
+            super().__init__(name)
+            self.synapse_params = {"PreReader_g": 1e-3, "PreReader_x0": -60.0}
+            self.synapse_states = {}
+
+        def update_states(self, states, delta_t, pre_voltage, post_voltage, params):
+            return {}
+
+        def compute_current(self, states, pre_voltage, post_voltage, params):
+            return params["PreReader_g"] * (pre_voltage - params["PreReader_x0"])
+
+    dy = lambda lo, hi, den=8: Fr(rng.randint(int(lo * den), int(hi * den)), den)
+    jobs, exprs = [], []
+    for _ in range(ctx.budget(4, 25)):
+        with quiet():
+            cells = [jx.Cell([jx.Branch(jx.Compartment(), rng.randint(1, 3))], parents=[-1]) for _ in range(rng.randint(2, 3))]
+            net = jx.Network(cells)
+            n = len(net.nodes)
+            nsyn = rng.randint(1, 6)
+            kinds = []
+            for _k in range(nsyn):
+                a, b = rng.randrange(n), rng.randrange(n)
+                if net.nodes.loc[a, "global_cell_index"] == net.nodes.loc[b, "global_cell_index"] and rng.random() < 0.7:
+                    b = (b + 1) % n
+                T = rng.choice([IonotropicSynapse, TestSynapse, PreReader])
+                connect(net.select(nodes=[a]), net.select(nodes=[b]), T())
+                kinds.append((a, b, T.__name__))
+            vs = [dy(-80, -40) for _ in range(n)]
+            rs = [dy(0.5, 3) for _ in range(n)]
+            ls = [dy(5, 30) for _ in range(n)]
+            net.set("v", np.asarray([float(x) for x in vs]))
+            net.set("radius", np.asarray([float(x) for x in rs]))
+            net.set("length", np.asarray([float(x) for x in ls]))
+            per_edge = []
+            for e in range(len(net.edges)):
+                t = net.edges.loc[e, "type"]
+                if t == "IonotropicSynapse":
+                    pr = {"IonotropicSynapse_gS": dy(0, 2, 1024), "IonotropicSynapse_e_syn": dy(-80, 10), "IonotropicSynapse_s": dy(0, 1, 16)}
+                elif t == "TestSynapse":
+                    pr = {"TestSynapse_gC": dy(0, 2, 1024), "TestSynapse_c": dy(0, 1, 16)}
+                else:
+                    pr = {"PreReader_g": dy(0, 2, 1024), "PreReader_x0": dy(-70, -50)}
+                for k, val in pr.items():
+                    net.edge(e).set(k, float(val))
+                per_edge.append((t, pr))
+            net.to_jax()
+            params = net.get_all_parameters([], voltage_solver="jaxley.stone")
+            states = net.get_all_states([], params, 0.025)
+            _, (vt, ct) = net._synapse_currents(dict(states), net.synapses, params, 0.025, net.edges)
+        d = Fr(1e-3)                                  # the double the code adds, exactly
+        syns = []
+        for e, (t, pr) in enumerate(per_edge):
+            pre = int(net.edges.loc[e, "pre_global_comp_index"])
+            post = int(net.edges.loc[e, "post_global_comp_index"])
+            conv = Fr(float(1e5 / (2 * np.pi * float(rs[post]) * float(ls[post]))))
+            if t == "IonotropicSynapse":
+                f = f"(fun vpre vpost : Q => {q(pr['IonotropicSynapse_gS'])} * {q(pr['IonotropicSynapse_s'])} * (vpost - {q(pr['IonotropicSynapse_e_syn'])}))"
+            elif t == "TestSynapse":
+                f = f"(fun vpre vpost : Q => {q(pr['TestSynapse_gC'])} * {q(pr['TestSynapse_c'])} * vpost)"
+            else:
+                f = f"(fun vpre vpost : Q => {q(pr['PreReader_g'])} * (vpre - {q(pr['PreReader_x0'])}))"
+            syns.append(f"mksyn Q {pre}%nat {post}%nat {f} {q(conv)}")
+        vlist = "[" + "; ".join(q(x) for x in vs) + "]"
+        exprs.append(f"map (fun c => let r := accumulate Q Qplus Qminus Qmult Qdiv 0 (fun i => nth i {vlist} 0) {q(d)} [{'; '.join(syns)}] c in let a := Qred (fst r) in let b := Qred (snd r) in (Qnum a, Zpos (Qden a), Qnum b, Zpos (Qden b))) (seq 0 {n})")
+        jobs.append((kinds, [float(x) for x in np.asarray(vt)], [float(x) for x in np.asarray(ct)], n))
+        distinct.add(("secant", tuple(kinds)))
+    if not exprs:
+        return 0
+    import re
+    res = coqeval.coq_eval(["Secant"], exprs, prelude="Local Open Scope Q_scope.")
+    for (kinds, vt, ct, n), r in zip(jobs, res):
+        ints = [int(m.group(0)) for m in re.finditer(r"-?\d+", r.replace("%Z", ""))]
+        vals = [Fr(ints[i], ints[i + 1]) for i in range(0, len(ints) - 1, 2)] if len(ints) == 4 * n else []
+        if len(vals) != 2 * n:
+            viol.append({"kind": "secant model output could not be parsed", "raw": r[:300], "no_failing_input_found": True})
+            continue
+        mvt, mct = [float(x) for x in vals[0::2]], [float(x) for x in vals[1::2]]
+        scale = 1.0 + max(abs(x) for x in mvt + mct)
+        if max(abs(a - b) for a, b in zip(vt + ct, mvt + mct)) > 1e-6 * scale:
+            viol.append({"kind": "Network._synapse_currents differs from the secant model (Model/Secant.v): the current is not linearised in the post voltage only",
+                         "synapses(pre,post,type)": kinds, "code_voltage_terms": vt, "model_voltage_terms": mvt, "code_constant_terms": ct, "model_constant_terms": mct})
+    return len(jobs)
 
 
 def run(ctx):
@@ -205,6 +303,15 @@ def run(ctx):
                                  got=[float(x) for x in out], reference=ref))
         except Exception as ex:
             viol.append(dict(case, kind="heterogeneous network raised", error=repr(ex)[:300]))
+    try:
+        nsec = secant_correspondence(ctx, viol, distinct)
+    except Exception as ex:
+        import traceback
+        nsec = 0
+        viol.append({"kind": "secant correspondence could not be evaluated", "error": repr(ex)[:600], "trace": traceback.format_exc()[-800:], "no_failing_input_found": True})
+    evals += nsec
+    import regress
+    evals += regress.run("C09", viol)
     for v in viol:
         v.setdefault("finding_class", None)
     return {"evaluations": evals, "distinct_nontrivial": len(distinct),
